@@ -233,6 +233,16 @@ func (p *GleecePipeline) Validate() ([]diagnostics.EntityDiagnostic, error) {
 
 func (p *GleecePipeline) getControllers() []metadata.ControllerMeta {
 	controllerNodes := p.symGraph.FindByKind(common.SymKindController)
+
+	// The graph hands nodes out in map order. Reduction assigns import serials on first use,
+	// so the order must be a function of the project alone
+	slices.SortFunc(controllerNodes, func(a, b *symboldg.SymbolNode) int {
+		if byName := strings.Compare(a.Id.Name, b.Id.Name); byName != 0 {
+			return byName
+		}
+		return strings.Compare(a.Id.FilePath, b.Id.FilePath)
+	})
+
 	return linq.Map(controllerNodes, func(node *symboldg.SymbolNode) metadata.ControllerMeta {
 		return node.Data.(metadata.ControllerMeta)
 	})
@@ -279,6 +289,10 @@ func (p *GleecePipeline) getModels() (definitions.Models, error) {
 	})
 
 	slices.SortFunc(reducedEnums, func(a, b definitions.EnumMetadata) int {
+		return strings.Compare(a.Name, b.Name)
+	})
+
+	slices.SortFunc(reducedAliases, func(a, b definitions.NakedAliasMetadata) int {
 		return strings.Compare(a.Name, b.Name)
 	})
 
